@@ -26,7 +26,7 @@ def nabs(x):
 
 MANIFEST = dict(
     technique='explicit-state enumeration of all sequence pairs up to renaming (restricted-growth strings), real code vs Wagner-Fischer / brute-force substring oracle',
-    text='Bounded exhaustive: every pair of sequences with |s|+|t| <= 7 (quick) / 9 (thorough) up to symbol renaming, in four symbol renderings, plus the full cost cube on short pairs and all 1-3-tuples of a summary pool, is executed on the real functions and compared with an independent full-matrix reference. Optimality is a for-all over alignments, so only enumeration against a reference decides it. Added sub-sweeps: tuples / numpy arrays as inputs (left untouched, second call equal), aggregates of aggregates, and structured pairs of 130-520 symbols. One list object edited in place (same length) between two calls.',
+    text='Bounded exhaustive: every pair of sequences with |s|+|t| <= 7 (quick) / 9 (thorough) up to symbol renaming, in four symbol renderings, plus the full cost cube on short pairs and all 1-3-tuples of a summary pool, is executed on the real functions and compared with an independent full-matrix reference. Optimality is a for-all over alignments, so only enumeration against a reference decides it. Added sub-sweeps: tuples / numpy arrays as inputs (left untouched, second call equal), aggregates of aggregates, and structured pairs of 130-520 symbols. One list object edited in place (same length) between two calls. Wave 10: every single failing array allocation of the six functions on all pairs with |s|+|t| <= 4 (5 thorough): the call may report the failure, an answer it returns must be the distance / a projecting alignment of that cost.',
     note='Assumes the functions compare symbols only for equality (renaming invariance); sequences longer than the bound are not explored.',
     ref='3/C13')
 
